@@ -103,6 +103,7 @@ def scenario_for(seed, index, tier):
                   'max_steps': 400000},
         'rand_seed': rng.randrange(2**32),
     }
+    sc['late_write'] = rng.random() < 0.25
     if rng.random() < 0.12:
         # 'kick': like a real server, it closes its socket right after the
         # disconnect packet instead of waiting for the client's answers, so
@@ -263,11 +264,19 @@ def reference(sc):
     # queued last by the user thread: once the server has it, every earlier
     # user packet has been through the outgoing listeners
     outgoing.append((('sentinel',), 'sentinel'))
+    if sc.get('late_write') and not sc.get('kick') and \
+            not sc.get('early_disc'):
+        # a forced write after the session is over: the early listeners see
+        # the packet, then the write fails - it never reaches the wire, so
+        # no ordinary outgoing listener may be told that it was sent
+        outgoing.append((('chat', 'late'), 'chat'))
     exp_out = {}
     play_frames = 0
     answered = set()
     for key, kind in outgoing:
         e, written, o = dispatch_out(L, kind)
+        if key == ('chat', 'late'):
+            written, o = False, []
         exp_out[key] = (e, written, o)
         if written and kind in ('ka', 'tp', 'pos-echo', 'chat', 'sentinel'):
             play_frames += 1
@@ -412,6 +421,12 @@ def execute(scenario, tape):
             st['quiet'] = w.wait_until(
                 lambda: common.all_net_done(w.sim) and
                 (st['exits'] or st['errs']), 60000000)
+            if scenario.get('late_write') and not scenario.get('kick') and \
+                    not scenario.get('early_disc') and st['quiet'] and \
+                    not st['errs']:
+                st['late'] = w.api('write-late', conn.write_packet,
+                                   sb.play.ChatPacket(message='late'),
+                                   force=True)
         w.sim.spawn(user, 'user0')
 
     w.run(build)
@@ -561,6 +576,9 @@ def check(scenario, w, st, res, ids):
         ge = [c['lid'] for c in got if c['early']]
         go = [c['lid'] for c in got if not c['early']]
         ob(3)
+        if key == ('chat', 'late') and not ge:
+            # refused before any listener was asked: just as good
+            e = []
         if ge != e or go != o:
             V.append(('C13/outgoing-listener-calls',
                       {'packet': key, 'got_early': ge, 'want_early': e,
